@@ -16,7 +16,8 @@ LEAN_PROPS = ["FastTicc.Props.C02", "FastTicc.Props.Compose", "FastTicc.Props.C0
 LEAN_HELPERS = ["FastTicc.Proofs.Admm", "FastTicc.Proofs.Compose", "FastTicc.Proofs.AdmmMatrix", "FastTicc.Proofs.LogDet"]
 LEAN_TRANSLATED = {"FastTicc.Props.TrSoft": ["soft_threshold_prox"],
                    "FastTicc.Props.TrZUpdate": ["soft_threshold_prox", "compute_lambda_sum", "admm_update_z", "locations_compressed",
-                                                "locations_index_slices"]}
+                                                "locations_index_slices"],
+                   "FastTicc.Props.TrAdmmLoop": ["run_admm_optimization", "admm_update_u", "admm_update_z"]}
 RULE = ("(a) step functions (soft threshold, lambda sum, Z update, U update, stopping rule) on dyadic inputs for all (N,W) "
         "with NW<=8 (thorough: <=24), scalar and matrix lambda, rho in {1/8..8}, vs the model at Rat; X update against its "
         "stationarity characterisation; (b) the entry point on generated PSD covariances (full rank, rank deficient, "
@@ -108,7 +109,7 @@ def _run_main(ctx):
             shapes = [tuple(replay["NW"])]
         reps = 2 if ctx.quick() else 6
         lines, meta = [], []
-        gen_z = []
+        gen_z, gen_u = [], []
         for (N, W) in shapes:
             n = N * W
             m = n * (n + 1) // 2
@@ -136,6 +137,8 @@ def _run_main(ctx):
                 lam_tok = ("m:" + show_list(lam.tolist(), lambda r: show_list(r, fl), ";")) if use_matrix else ("s:" + fl(lam))
                 gen_z.append((f"{W}~{N}~{fl(rho)}~{lam_tok} {show_list(u, fl)} {show_list(x, fl)}",
                               "ok " + show_list(z, fl), {"step": True, "NW": [N, W], "rep": rep}))
+                gen_u.append((f"{show_list(u, fl)} {show_list(x, fl)} {show_list(z, fl)}", "ok " + show_list(unew, fl),
+                              {"step": True, "NW": [N, W], "rep": rep}))
                 lines.append(f"zupdate {frac_str(Fraction(rho))} {lam_s} {N} {W} "
                              f"{show_list(u, lambda v: frac_str(Fraction(float(v))))} {show_list(x, lambda v: frac_str(Fraction(float(v))))}")
                 meta.append(("z", (N, W, rep), z))
@@ -179,6 +182,7 @@ def _run_main(ctx):
                 ctx.violation("correspondence-break", f"{'zUpdate' if kind == 'z' else 'uUpdate'} vs implementation",
                               {"step": True, "NW": list(key[:2]), "rep": key[2]})
         ctx.gen_compare("admm_update_z", gen_z, tol=1e-12)
+        ctx.gen_compare("admm_update_u", gen_u, tol=1e-12)
         # scalar helpers
         lines, impl = [], []
         for _ in range(200 if ctx.quick() else 2000):
